@@ -40,6 +40,8 @@ FRAGMENTS = {
     'tri-ala': ('tri_alanine.pdb', None),
     'ala1-zwitterion': ('ala5.pdb', 'zwitterion'),
     'ala5': ('ala5.pdb', None),
+    # two side-chain atoms given in alternate conformations A and B (B is displaced): conformation A is the one documented to be used
+    'ala5-altloc': ('ala5.pdb', 'altloc'),
     'bta15-18': ('1bta.pdb', [('A', 15, 18)]),      # ASP LEU HIS GLN
     'bta38-41': ('1bta.pdb', [('A', 38, 41)]),      # TRP ASP CYS LEU
     'bta3-6': ('1bta.pdb', [('A', 3, 6)]),          # ALA VAL ILE ASN
@@ -85,6 +87,11 @@ def load_atoms(name):
             chain, resid = line[21], int(line[22:26])
             if line[16] not in ' A':
                 continue
+            if ranges == 'altloc' and line[12:16].strip() == 'CB' and resid in (2, 3):
+                first = line[:16] + 'A' + line[17:]
+                atoms.append({'line': first, 'name': first[12:16], 'res': (chain, resid, first[26]),
+                              'xyz': (float(first[30:38]), float(first[38:46]), float(first[46:54])), 'element': 'C'})
+                line = line[:16] + 'B' + line[17:30] + '%8.3f' % (float(line[30:38]) + 0.9) + line[38:]
             if ranges == 'zwitterion':
                 # residue 1 with its three amine hydrogens, plus the position of the next residue's N as the second
                 # carboxylate oxygen (a real coordinate of the file, 1.33 A from C)
@@ -95,6 +102,8 @@ def load_atoms(name):
                     chain, resid = line[21], 1
                 else:
                     continue
+            elif ranges == 'altloc':
+                pass
             elif ranges is not None:
                 hit = [r for r in ranges if (r[0] is None or r[0] == chain or chain == ' ') and r[1] <= resid <= r[2]]
                 if not hit:
@@ -409,8 +418,8 @@ def bind_driver(name):
 
 def run(ctx):
     if ctx.quick:
-        inputs = ['tri-ala', 'ala5', 'ala1-zwitterion', 'bta15-18', 'bta38-41', 'villin52-55', 'bpti-ss', 'bta-two-chains']
-        optsets = {'bta-two-chains': ['default', 'merge'], 'tri-ala': ['default', 'posres', 'ss', 'nt'], 'ala5': ['elastic', 'nt'], 'ala1-zwitterion': ['default'], 'bta15-18': ['elastic', 'martini22'], 'bta38-41': ['elastic', 'cys-none'],
+        inputs = ['tri-ala', 'ala5', 'ala1-zwitterion', 'bta15-18', 'bta38-41', 'villin52-55', 'bpti-ss', 'bta-two-chains', 'ala5-altloc']
+        optsets = {'bta-two-chains': ['default', 'merge'], 'ala5-altloc': ['default'], 'tri-ala': ['default', 'posres', 'ss', 'nt'], 'ala5': ['elastic', 'nt'], 'ala1-zwitterion': ['default'], 'bta15-18': ['elastic', 'martini22'], 'bta38-41': ['elastic', 'cys-none'],
                    'villin52-55': ['elastic'], 'bpti-ss': ['elastic', 'cys-none']}
         seeds = [0, 1, 2, 3 + ctx.seed % 50]
     else:
@@ -418,6 +427,10 @@ def run(ctx):
         optsets = {name: [o for o in OPTIONS if not o.startswith('merge')] for name in inputs}
         optsets['ala1-zwitterion'] = ['default', 'elastic']
         optsets['bta-two-chains'] = ['default', 'elastic', 'merge', 'merge-all-elastic', 'nt']
+        optsets['ala5-altloc'] = ['default', 'elastic']
+        for skip in ('bta3-12', 'bta-two-chains-6', 'bta15-22'):      # inputs of other properties' CLI layers
+            optsets.pop(skip, None)
+            inputs.remove(skip)
         seeds = list(range(16)) + [100 + ctx.seed % 1000]
     ctx.bound = {'inputs': inputs, 'deviations': 1 if ctx.quick else '1, plus pairs (motion x transposition), (all-H renamed x transposition)',
                  'hash_seeds': seeds}
